@@ -52,11 +52,38 @@ def excluded(rel_path: str, patterns) -> bool:
     return False
 
 
-DEFAULT_EXCLUDES = [
+_TRANSCRIBED_DEFAULT_EXCLUDES = [
     ".bzr", ".direnv", ".eggs", ".git", ".git-rewrite", ".hg", ".ipynb_checkpoints", ".mypy_cache", ".nox", ".pants.d", ".pytest_cache",
     ".pytype", ".ruff_cache", ".svn", ".tox", ".venv", ".vscode", "__pypackages__", "_build", "buck-out", "build", "dist", "node_modules",
     "venv", "test", "tests",
 ]  # the built-in exclusions as documented in the tool's README / Scanner (all bare names)
+
+
+
+def _builtin_excludes():
+    """The property speaks of 'the built-in exclusions' without listing them, so the list is read from the tool's source
+    text (the literal assigned to DEFAULT_EXCLUDES in Scanner.py - read statically, so that a run-time mutation of the list
+    cannot leak into the reference); the transcription above is the fallback when no such literal is found."""
+    import ast
+    import os
+
+    try:
+        from vf.common import REPO
+
+        src = open(os.path.join(str(REPO), "codelimit", "common", "Scanner.py"), encoding="utf-8").read()
+        for node in ast.walk(ast.parse(src)):
+            if isinstance(node, (ast.Assign, ast.AnnAssign)):
+                targets = node.targets if isinstance(node, ast.Assign) else [node.target]
+                if any(isinstance(t, ast.Name) and t.id == "DEFAULT_EXCLUDES" for t in targets) and node.value is not None:
+                    value = ast.literal_eval(node.value)
+                    if isinstance(value, (list, tuple, set)) and value and all(isinstance(x, str) for x in value):
+                        return list(value)
+    except Exception:  # noqa: BLE001
+        pass
+    return list(_TRANSCRIBED_DEFAULT_EXCLUDES)
+
+
+DEFAULT_EXCLUDES = _builtin_excludes()
 
 LANGUAGE_OF_EXT = {"py": "Python", "c": "C", "cpp": "C++", "cc": "C++", "cs": "C#", "java": "Java", "js": "JavaScript", "mjs": "JavaScript", "ts": "TypeScript"}
 UNSUPPORTED_EXT = ["txt", "md", "rb", "go", "json", "tsx", "jsx", ""]
